@@ -416,6 +416,313 @@ pub fn large_strategy(max_tasks: u16) -> BoxedStrategy<LargeCase> {
         .boxed()
 }
 
+// ---------------------------------------------------------------------------------------------
+// snapshots through the real backends that request them (HTTP client, object store)
+
+use super::c08::{Backend, Bk};
+use crate::engine::exec::block_on;
+use std::cell::RefCell;
+use std::rc::Rc;
+use taskchampion::server::{AddVersionResult, GetVersionResult, Server, SnapshotUrgency};
+
+#[derive(Clone, Debug)]
+pub enum Ev {
+    AddVersion { result: Result<Uuid, Uuid>, urgency: SnapshotUrgency },
+    AddSnapshot { version: Uuid, bytes: Vec<u8> },
+    GetChild,
+    GetSnapshot(Option<Uuid>),
+}
+
+/// Records what a replica asked of its server handle and what it was told.
+pub struct Recorder {
+    pub inner: Box<dyn Server>,
+    pub log: Rc<RefCell<Vec<Ev>>>,
+    /// every accepted version, in order, over all handles: (id, parent, bytes as submitted)
+    pub chain: Rc<RefCell<Vec<(Uuid, Uuid, Vec<u8>)>>>,
+}
+
+#[async_trait::async_trait(?Send)]
+impl Server for Recorder {
+    async fn add_version(
+        &mut self,
+        parent: Uuid,
+        seg: Vec<u8>,
+    ) -> Result<(AddVersionResult, SnapshotUrgency), taskchampion::Error> {
+        let (r, u) = self.inner.add_version(parent, seg.clone()).await?;
+        if let AddVersionResult::Ok(v) = &r {
+            self.chain.borrow_mut().push((*v, parent, seg));
+        }
+        self.log.borrow_mut().push(Ev::AddVersion {
+            result: match &r {
+                AddVersionResult::Ok(v) => Ok(*v),
+                AddVersionResult::ExpectedParentVersion(v) => Err(*v),
+            },
+            urgency: u,
+        });
+        Ok((r, u))
+    }
+    async fn get_child_version(&mut self, parent: Uuid) -> Result<GetVersionResult, taskchampion::Error> {
+        let r = self.inner.get_child_version(parent).await?;
+        self.log.borrow_mut().push(Ev::GetChild);
+        Ok(r)
+    }
+    async fn add_snapshot(&mut self, version: Uuid, snapshot: Vec<u8>) -> Result<(), taskchampion::Error> {
+        self.log.borrow_mut().push(Ev::AddSnapshot { version, bytes: snapshot.clone() });
+        self.inner.add_snapshot(version, snapshot).await
+    }
+    async fn get_snapshot(&mut self) -> Result<Option<(Uuid, Vec<u8>)>, taskchampion::Error> {
+        let r = self.inner.get_snapshot().await?;
+        self.log.borrow_mut().push(Ev::GetSnapshot(r.as_ref().map(|x| x.0)));
+        Ok(r)
+    }
+}
+
+#[derive(Clone, Debug, PartialEq, Eq, Hash, Serialize, Deserialize)]
+pub struct BkSnapCase {
+    pub backend: Backend,
+    pub avoid: Vec<bool>,
+    /// HTTP: urgency stated with each accepted version (0 none, 1 low, 2 high); object store: the
+    /// same numbers select the server's random draws (its urgency is high while it has no
+    /// snapshot, whatever is drawn)
+    pub urgency: Vec<u8>,
+    pub strings: Vec<String>,
+    pub actions: Vec<Action>,
+    pub fresh_avoid: bool,
+}
+
+pub fn bk_strategy(backend: Backend, max: usize) -> BoxedStrategy<BkSnapCase> {
+    (
+        proptest::collection::vec(any::<bool>(), 2),
+        proptest::collection::vec(prop_oneof![3 => Just(0u8), 2 => Just(1u8), 3 => Just(2u8)], 0..16),
+        proptest::collection::vec("\\PC{0,12}", 1..6),
+        proptest::collection::vec(action_strategy_ext(2, 3, 0, 7, 9), 1..=max),
+        any::<bool>(),
+    )
+        .prop_map(move |(avoid, urgency, strings, actions, fresh_avoid)| BkSnapCase {
+            backend,
+            avoid,
+            urgency,
+            strings,
+            actions,
+            fresh_avoid,
+        })
+        .boxed()
+}
+
+/// (version id, replay up to and including it) for every accepted version, from what the
+/// replicas submitted.
+fn replay_recorded(chain: &[(Uuid, Uuid, Vec<u8>)]) -> Result<Vec<(Uuid, Model)>, Failure> {
+    let mut out = vec![];
+    let mut m = Model::new();
+    let mut p = Uuid::nil();
+    for (id, parent, seg) in chain {
+        crate::ensure!(
+            out.is_empty() || *parent == p,
+            "accepted-wrong-parent",
+            "version {id} was accepted on top of {parent} although the latest accepted version was {p}"
+        );
+        m.apply_all(&parse_version(seg).map_err(|e| Failure::new("bad-version", e))?);
+        p = *id;
+        out.push((*id, m.clone()));
+    }
+    Ok(out)
+}
+
+pub fn check_backends(c: &BkSnapCase) -> CheckResult {
+    let mut rep = CaseReport::default();
+    let mut bk = Bk::open(c.backend, 4)?;
+    match c.backend {
+        Backend::Http => {
+            bk.http().unwrap().state.lock().unwrap().urgency_script = c.urgency.iter().copied().collect();
+        }
+        Backend::ObjectStore => {
+            // draws below 2 mean high, below 25 low (and a draw is also taken for the cleanup decision)
+            let q: Vec<u8> = c.urgency.iter().map(|u| match u { 0 => 200, 1 => 10, _ => 0 }).collect();
+            taskchampion::server::verif::set_draws(q, Some(255));
+        }
+        _ => {}
+    }
+    if let Some(st) = bk.store() {
+        // nothing stored in this campaign is older than the retention age (a replica whose base
+        // version was cleaned away behind a snapshot cannot sync any more, by design)
+        let now = std::time::SystemTime::now().duration_since(std::time::UNIX_EPOCH).map(|d| d.as_secs()).unwrap_or(0);
+        st.set_clock(now + 1000);
+    }
+    let recorded: Rc<RefCell<Vec<(Uuid, Uuid, Vec<u8>)>>> = Rc::new(RefCell::new(vec![]));
+    let logs: Vec<Rc<RefCell<Vec<Ev>>>> = (0..3).map(|_| Rc::new(RefCell::new(vec![]))).collect();
+    let mut handles: Vec<Box<dyn Server>> = vec![];
+    for h in 0..3 {
+        bk.make_handle(h)?;
+        let inner = bk.handles[h].take().unwrap();
+        handles.push(Box::new(Recorder { inner, log: logs[h].clone(), chain: recorded.clone() }));
+    }
+    let mut reps = vec![Rep::mem(&pool()), Rep::mem(&pool())];
+    let mut rz = [Realizer::new(0), Realizer::new(1)];
+    for r in &mut rz {
+        r.strings = c.strings.clone();
+    }
+    let mut avoid = c.avoid.clone();
+    avoid.resize(2, false);
+    avoid.push(c.fresh_avoid);
+    let mut uploaded: Vec<(Uuid, Vec<u8>)> = vec![];
+    let mut nontrivial = false;
+
+    // the upload rule and the content of everything uploaded during the last sync of replica r
+    let after_sync = |r: usize,
+                          from: usize,
+                          bk: &mut Bk,
+                          uploaded: &mut Vec<(Uuid, Vec<u8>)>,
+                          rep: &mut CaseReport,
+                          nontrivial: &mut bool|
+     -> Result<(), Failure> {
+        let log = logs[r].borrow().clone();
+        let threshold = if avoid[r] { SnapshotUrgency::High } else { SnapshotUrgency::Low };
+        for i in from..log.len() {
+            if let Ev::AddSnapshot { version, bytes } = &log[i] {
+                match i.checked_sub(1).map(|j| &log[j]) {
+                    Some(Ev::AddVersion { result: Ok(v), urgency }) if v == version && *urgency >= threshold => {}
+                    other => crate::fail!(
+                        "snapshot-not-requested",
+                        "replica {r} uploaded a snapshot for {version} through {:?}, but what came right before was {other:?} (its threshold is {threshold:?})",
+                        c.backend
+                    ),
+                }
+                let got = decode_snapshot(bytes).map_err(|e| Failure::new("snapshot-undecodable", e))?;
+                let chain = replay_recorded(&recorded.borrow())?;
+                let Some((pos, (_, want))) = chain.iter().enumerate().find(|(_, (v, _))| v == version) else {
+                    crate::fail!("snapshot-for-unknown-version", "a snapshot was uploaded for version {version}, which is not an accepted version");
+                };
+                crate::ensure!(
+                    &got == want,
+                    "snapshot-content",
+                    "the snapshot uploaded by replica {r} for version {version} (position {pos}) through {:?} contains\n  {}\nbut replaying the accepted versions up to that one gives\n  {}",
+                    c.backend,
+                    got.render(),
+                    want.render()
+                );
+                uploaded.push((*version, bytes.clone()));
+                rep.class("snapshot-checked");
+                if pos >= 1 && !want.0.is_empty() {
+                    *nontrivial = true;
+                    rep.class("snapshot-at-version>=2-with-tasks");
+                }
+                // what the backend now hands out is an uploaded snapshot, intact
+                bk.drop_handle(3);
+                let s = bk.handle(3, true)?;
+                let served = block_on(s.get_snapshot()).map_err(|e| Failure::new("get-snapshot-error", format!("{e}")))?;
+                match served {
+                    None => crate::fail!("snapshot-lost", "a snapshot for {version} was uploaded through {:?} but none is served", c.backend),
+                    Some((v, b)) => crate::ensure!(
+                        uploaded.iter().any(|(uv, ub)| *uv == v && *ub == b),
+                        "snapshot-not-intact",
+                        "{:?} serves a snapshot labelled {v} ({} bytes) that is not one of the uploaded (version, bytes) pairs",
+                        c.backend,
+                        b.len()
+                    ),
+                }
+            }
+        }
+        Ok(())
+    };
+
+    for (ai, a) in c.actions.iter().enumerate() {
+        match a {
+            Action::Commit { r, intents } => {
+                let r = *r as usize % 2;
+                let mut local = reps[r].tasks();
+                let mut ops = vec![];
+                rz[r].realize(intents, &mut local, &mut ops);
+                reps[r].commit(ops).map_err(|e| Failure::new("commit-error", format!("{e}")))?;
+            }
+            Action::Sync { r } => {
+                let r = *r as usize % 2;
+                let from = logs[r].borrow().len();
+                let had_data = {
+                    let d = reps[r].dump();
+                    !d.tasks.0.is_empty() || !d.unsynced.is_empty() || !d.base.is_nil()
+                };
+                reps[r].sync(&mut handles[r], avoid[r]).map_err(|e| {
+                    Failure::new("sync-error", format!("action {ai}: sync of replica {r} through {:?} failed: {e:?}", c.backend))
+                })?;
+                if had_data && !uploaded.is_empty() {
+                    rep.class("non-empty-replica-syncs-while-the-backend-holds-a-snapshot");
+                }
+                after_sync(r, from, &mut bk, &mut uploaded, &mut rep, &mut nontrivial)?;
+            }
+            Action::Big { .. } => {}
+        }
+    }
+    for _ in 0..2 {
+        for r in 0..2 {
+            let from = logs[r].borrow().len();
+            reps[r].sync(&mut handles[r], avoid[r]).map_err(|e| {
+                Failure::new("sync-error", format!("quiesce: sync of replica {r} through {:?} failed: {e:?}", c.backend))
+            })?;
+            after_sync(r, from, &mut bk, &mut uploaded, &mut rep, &mut nontrivial)?;
+        }
+    }
+    // a brand-new replica: from the served snapshot (if any) plus the later versions
+    let chain = replay_recorded(&recorded.borrow())?;
+    let full = chain.last().map(|x| x.1.clone()).unwrap_or_default();
+    let mut fresh = Rep::mem(&pool());
+    let from = logs[2].borrow().len();
+    fresh.sync(&mut handles[2], c.fresh_avoid).map_err(|e| {
+        Failure::new("fresh-sync-error", format!("sync of a fresh replica through {:?} failed: {e:?}", c.backend))
+    })?;
+    let got = fresh.tasks();
+    let started_from = logs[2].borrow()[from..].iter().find_map(|e| match e {
+        Ev::GetSnapshot(v) => Some(*v),
+        _ => None,
+    });
+    crate::ensure!(
+        got == full,
+        "fresh-replica-state",
+        "a fresh replica that synced through {:?} (snapshot offered: {started_from:?}) holds\n  {}\nbut the replay of all accepted versions gives\n  {}",
+        c.backend,
+        got.render(),
+        full.render()
+    );
+    rep.class("fresh-replica");
+    if let Some(Some(v)) = started_from {
+        rep.class("fresh-replica-from-snapshot");
+        let pos = chain.iter().position(|(id, _)| *id == v);
+        if pos.map(|p| p + 1 < chain.len()).unwrap_or(false) {
+            nontrivial = true;
+            rep.class("fresh-replica-from-snapshot-with-later-versions");
+        }
+    }
+    for r in 0..2 {
+        let t = reps[r].tasks();
+        crate::ensure!(
+            t == full,
+            "diverged-from-chain",
+            "after quiescence through {:?} replica {r} holds\n  {}\nbut the accepted versions replay to\n  {}",
+            c.backend,
+            t.render(),
+            full.render()
+        );
+    }
+    if let Some(h) = bk.http() {
+        let st = h.state.lock().unwrap();
+        crate::ensure!(st.protocol_errors.is_empty(), "http-protocol", "the HTTP client violated http.md: {:?}", st.protocol_errors);
+    }
+    rep.class(match c.backend {
+        Backend::Http => "backend:http",
+        Backend::ObjectStore => "backend:object-store",
+        _ => "backend:other",
+    });
+    rep.nontrivial = nontrivial;
+    Ok(rep)
+}
+
+pub fn render_bk(c: &BkSnapCase) -> Value {
+    serde_json::json!({
+        "backend": format!("{:?}", c.backend), "avoid_snapshots": c.avoid, "urgency_script": c.urgency,
+        "fresh_replica_avoids_snapshots": c.fresh_avoid, "strings": c.strings,
+        "actions": c.actions.iter().map(render_action).collect::<Vec<_>>(),
+    })
+}
+
 pub fn run(e: &Engine) {
     e.assume("snapshots and versions are observed in plaintext at the Server trait boundary of the harness ModelServer");
     let rule = "C01-style histories with generated Unicode property names/values, an urgency script, avoid_snapshots per replica, fresh replicas and foreign-snapshot offers; \
@@ -439,4 +746,15 @@ non-trivial = a checked snapshot at chain position >= 2 with >= 1 task, or a fre
         render,
         check_case,
     );
+    for b in [Backend::Http, Backend::ObjectStore] {
+        e.set_shrink_iters(400);
+        e.campaign(
+            &format!("snapshots-through-{b:?}"),
+            "two real replicas (avoid_snapshots generated per replica) run a generated commit/sync history through the real HTTP client (harness server stating a generated urgency with every accepted version) or the object-store server (urgency from generated draws; high while it has no snapshot); every snapshot the replica hands to the backend must directly follow an accepted version whose reported urgency met the replica's threshold, must decode to the replay of the versions the backend accepted (recorded at the Server trait boundary) up to its version, and the backend must then serve an uploaded (version, bytes) pair; finally a brand-new replica syncs through a fresh handle (snapshot + later versions) and must equal the full replay; non-trivial = a checked snapshot at chain position >= 2 with tasks, or a fresh replica that started from a snapshot and applied later versions",
+            e.tier.pick(400, 12_000),
+            move || bk_strategy(b, 14),
+            render_bk,
+            check_backends,
+        );
+    }
 }
